@@ -133,37 +133,48 @@ def optDate : Option Int → Bound
   | some t => .date t
   | Option.none => .none
 
-/-- `df_slice(dfs, lb, ub, openclose, n)` for a LIST of series and bound lists (lines 1665-1697).
-    `none` is Python's `None` (no series at all). -/
-def stitch (dfs : List TS) (lb ub : Option (List Int)) (oc : Option (List Char)) (n : Nat) : Res (Option Frame) := do
-  let (dfs, lbs, ubs) ← (match lb, ub with
-    | some lb, Option.none =>                                    -- 1666-1670
-        let (lb, dfs) := if nonDecreasing lb then (lb, dfs) else (lb.reverse, dfs.reverse)
-        pure (dfs, lb.map some, (lb.drop 1).map some ++ [Option.none])
-    | Option.none, some ub =>                                    -- 1671-1675
-        let (ub, dfs) := if nonDecreasing ub then (ub, dfs) else (ub.reverse, dfs.reverse)
-        pure (dfs, Option.none :: ub.dropLast.map some, ub.map some)
-    | some lb, some ub =>                                        -- 1676-1684
-        if nonDecreasing ub != nonDecreasing lb then .error .value
-        else if !nonDecreasing lb then pure (dfs.reverse, lb.reverse.map some, ub.reverse.map some)
-        else pure (dfs, lb.map some, ub.map some)
-    | Option.none, Option.none => .error .type                   -- 1685: `lb + ub` on None
-    : Res (List TS × List (Option Int) × List (Option Int)))
-  let frames : List Frame :=                                      -- 1687-1691
-    if n > 1 then (List.range dfs.length).map fun i =>
-      let cols := (dfs.drop i).take n
-      ⟨cols.length, concatCols cols⟩
-    else dfs.map fun ts => ⟨1, ofTS ts⟩
-  let dlu ← zipper3 frames lbs ubs                               -- 1693
-  let res ← dlu.mapM fun (d, l, u) => do                         -- 1694
+/-- lines 1665-1684: the three spellings of the bound lists, brought to increasing order -/
+def normalise (dfs : List TS) (lb ub : Option (List Int)) : Res (List TS × List (Option Int) × List (Option Int)) :=
+  match lb, ub with
+  | some lb, Option.none =>                                    -- 1666-1670
+      let (lb, dfs) := if nonDecreasing lb then (lb, dfs) else (lb.reverse, dfs.reverse)
+      pure (dfs, lb.map some, (lb.drop 1).map some ++ [Option.none])
+  | Option.none, some ub =>                                    -- 1671-1675
+      let (ub, dfs) := if nonDecreasing ub then (ub, dfs) else (ub.reverse, dfs.reverse)
+      pure (dfs, Option.none :: ub.dropLast.map some, ub.map some)
+  | some lb, some ub =>                                        -- 1676-1684
+      if nonDecreasing ub != nonDecreasing lb then .error .value
+      else if !nonDecreasing lb then pure (dfs.reverse, lb.reverse.map some, ub.reverse.map some)
+      else pure (dfs, lb.map some, ub.map some)
+  | Option.none, Option.none => .error .type                   -- 1685: `lb + ub` on None
+
+/-- lines 1687-1691: with `n > 1` series `i` becomes the frame of series `i .. i+n-1` side by side -/
+def framesOf (dfs : List TS) (n : Nat) : List Frame :=
+  if n > 1 then (List.range dfs.length).map fun i => ⟨((dfs.drop i).take n).length, concatCols ((dfs.drop i).take n)⟩
+  else dfs.map fun ts => ⟨1, ofTS ts⟩
+
+/-- line 1694: every frame cut to its own interval -/
+def cutAll (dlu : List (Frame × Option Int × Option Int)) (oc : Option (List Char)) : Res (List Frame) :=
+  dlu.mapM fun (d, l, u) => do
     let rows ← sliceOne d.rows (optDate l) (optDate u) oc
     pure (⟨d.width, rows⟩ : Frame)
+
+/-- lines 1695-1701: nothing, the only piece, or `pd.concat` of the pieces (missing columns are NaN) -/
+def assemble (res : List Frame) : Option Frame :=
   match res with
-  | [] => pure Option.none                                        -- 1695
-  | [x] => pure (some x)                                          -- 1697
-  | _ =>                                                          -- 1699-1700 pd.concat(res)
+  | [] => Option.none
+  | [x] => some x
+  | _ =>
     let w := res.foldl (fun m f => max m f.width) 0
-    pure (some ⟨w, res.flatMap fun f => f.rows.map fun r => (r.1, padRow w r.2)⟩)
+    some ⟨w, res.flatMap fun f => f.rows.map fun r => (r.1, padRow w r.2)⟩
+
+/-- `df_slice(dfs, lb, ub, openclose, n)` for a LIST of series and bound lists (lines 1665-1701).
+    `none` is Python's `None` (no series at all). -/
+def stitch (dfs : List TS) (lb ub : Option (List Int)) (oc : Option (List Char)) (n : Nat) : Res (Option Frame) := do
+  let (dfs, lbs, ubs) ← normalise dfs lb ub
+  let dlu ← zipper3 (framesOf dfs n) lbs ubs                     -- 1693
+  let res ← cutAll dlu oc                                        -- 1694
+  pure (assemble res)
 
 /-! ### df_unslice -/
 
